@@ -1,4 +1,4 @@
-\* seeded model mutation: SyncMarkers = FALSE  ClearSlot = TRUE (device already initialised); see README_models.md for the expected outcome
+\* seeded model mutation: SyncMarkers = FALSE  ClearSlot = TRUE  FlushGivesUp = TRUE (device already initialised); see README_models.md for the expected outcome
 \* run: tlc -workers 8 -deadlock -noGenerateSpecTE -config MCWriteBehind_mut_SyncMarkers.cfg MCWriteBehind.tla   (inside /verif/spec, private -metadir)
 CONSTANTS
   DS = 16  DE = 19
@@ -6,7 +6,7 @@ CONSTANTS
   RetireAny = TRUE  GhostTails = TRUE  Tears = 1
   FreshStart = FALSE  InitSync = TRUE
   SyncIntent = TRUE  SyncData = TRUE  SyncClear = TRUE
-  JournalAll = TRUE  SuccTest = TRUE  SyncMarkers = FALSE  ClearSlot = TRUE
+  JournalAll = TRUE  SuccTest = TRUE  SyncMarkers = FALSE  ClearSlot = TRUE  FlushGivesUp = TRUE
 SPECIFICATION Spec
 INVARIANTS TypeOK CrashSafe Partition ExactAtQuiescence AckMeansDurable JournalClearAtAck LayoutAtAck MetaMatches
 CHECK_DEADLOCK FALSE
